@@ -139,11 +139,23 @@ def _page_ok(base: str, page: str, d: str) -> bool:
     return len(rest) == 0
 
 
+def _realise(doc: str) -> str:
+    """The escaping filter is C code: a symbolic string is realised at that boundary anyway (one solver model per path).  When a template
+    emits the text WITHOUT escaping, the symbolic string would instead flow into a page-sized symbolic concatenation and a single path
+    no longer finishes.  Realising at entry keeps every path cheap and the enumeration of models of the precondition exhaustive."""
+    try:
+        from crosshair import deep_realize
+        return deep_realize(doc)
+    except ImportError:
+        return doc
+
+
 def type_doc_is_inert(doc: str) -> bool:
     """
     pre: 1 <= len(doc) <= MAXLEN and all(c in SIGMA for c in doc)
     post: _
     """
+    doc = _realise(doc)
     out = gen(doc, "plain")
     return all(_page_ok(base, out[k], doc) for k, base in _BASE_T.items())
 
@@ -153,5 +165,6 @@ def field_doc_is_inert(doc: str) -> bool:
     pre: 1 <= len(doc) <= MAXLEN and all(c in SIGMA for c in doc)
     post: _
     """
+    doc = _realise(doc)
     out = gen("plain", doc)
     return all(_page_ok(base, out[k], doc) for k, base in _BASE_F.items())
